@@ -37,6 +37,15 @@ Theorem C10_sequences_order_colex : forall (C : codec) (xs ys : list N),
   seq_cmp (encode (c_bits C) xs) (encode (c_bits C) ys) = colex xs ys.
 Proof. exact seq_cmp_colex. Qed.
 
+(* hence the minimum over a sequence's k-mers (Iterator::min on the numeric order) is its
+   colexicographic minimiser: one of the windows, and no window is colex-smaller *)
+Theorem C10_minimum_is_colex_minimiser : forall (C : codec) (w : list N) (ws : list (list N)),
+  Forall (fun v => length v = length w /\ Forall (smallc C) v) (w :: ws) ->
+  exists m, In m (w :: ws) /\
+            kval C m = fold_left N.min (map (kval C) ws) (kval C w) /\
+            forall v, In v (w :: ws) -> colex m v <> Gt.
+Proof. exact minimiser_is_colex_least. Qed.
+
 (* README: AAAA < CAAA < GAAA < ... < AAAC < ... < TTTT  (A<C<G<T as 0..3) *)
 Example C10_readme_order :
   colex [0;0;0;0]%N [1;0;0;0]%N = Lt /\ colex [1;0;0;0]%N [2;0;0;0]%N = Lt /\
@@ -49,3 +58,4 @@ Print Assumptions C10_order_consistent_with_equality.
 Print Assumptions C10_order_antisymmetric.
 Print Assumptions C10_sequences_order_like_kmers.
 Print Assumptions C10_sequences_order_colex.
+Print Assumptions C10_minimum_is_colex_minimiser.
